@@ -74,7 +74,7 @@ _tlc_counter = [0]
 
 
 def tlc(module, cfg, workers=1, env=None, timeout=1800, simulate=None, depth=None, seed=None,
-        coverage=False, xmx="4g", deque=False, extra=None):
+        coverage=False, xmx="4g", deque=False, extra=None, tolerate_eval_error=False):
     """Run TLC; returns dict(out, rc, generated, distinct, depth). Raises ToolError on tool failure."""
     _tlc_counter[0] += 1
     meta = os.path.join(OUT, "tlc", "%s-%d-%d" % (module, os.getpid(), _tlc_counter[0]))
@@ -115,6 +115,16 @@ def tlc(module, cfg, workers=1, env=None, timeout=1800, simulate=None, depth=Non
         res["depth"] = int(m.group(1))
     if p.returncode == 124:
         raise ToolError("TLC timed out after %ss: %s" % (timeout, " ".join(cmd)))
+    if tolerate_eval_error and "The behavior up to this point is" in out \
+            and not re.search(r"Error: (Invariant \S+ is violated|Action property \S+ is violated|Temporal properties were "
+                              r"violated|Deadlock reached|Assumption .* is false)", out) \
+            and "java.lang.OutOfMemoryError" not in out and "StackOverflowError" not in out:
+        # the specification could not evaluate one of the logged cases (e.g. its decoder ran off the end of
+        # bytes the implementation wrote, or a length field overflowed): the caller turns this into a
+        # finding about that case
+        m = re.search(r"The exception was a [^\n]*\n: ([^\n]*)", out) or re.search(r"^Error: (?!TLC threw|The behavior)([^\n]*)", out, re.M)
+        res["eval_error"] = (m.group(1) if m else "evaluation error")[:160]
+        return res
     if "Parsing or semantic analysis failed" in out or "Error: TLC threw an unexpected exception" in out \
             or "java.lang.OutOfMemoryError" in out or "StackOverflowError" in out:
         raise ToolError("TLC tool error:\n" + out[-4000:])
